@@ -190,7 +190,7 @@ func (e *Engine) isPrivateRef(st *State, ref string) bool {
 func (e *Engine) havocAllKeepPrivate(st *State) {
 	type keep struct{ comp, sort, old string }
 	var ks []keep
-	if len(st.priv) > 0 {
+	if len(st.priv) > 0 || len(st.stable) > 0 {
 		for c, t := range st.heap {
 			srt := st.ghost["$sort:"+c]
 			if strings.HasPrefix(srt, "(Array Int ") && !strings.HasPrefix(c, "IT$") {
@@ -199,6 +199,16 @@ func (e *Engine) havocAllKeepPrivate(st *State) {
 		}
 	}
 	e.havocAll(st)
+	// cells of captured variables that are never re-assigned keep their content
+	for _, k := range ks {
+		if !strings.HasPrefix(k.comp, "P$") {
+			continue
+		}
+		nw := e.heapGet(st, k.comp, k.sort)
+		for r := range st.stable {
+			st.assume(eq(sx("select", nw, r), sx("select", k.old, r)))
+		}
+	}
 	for _, k := range ks {
 		nw := e.heapGet(st, k.comp, k.sort)
 		for r := range st.priv {
